@@ -26,3 +26,17 @@ Definition q_c_coarse := c_coarse Qc 0 q_lsolve.
 Definition q_run_history (H : chier Qc) :=
   run_history 0 (q_c_coarse (ch_trans H) (ch_coarse H))
               (mk_levels Qc 0 1 Qcplus Qcmult Qcminus Qcinv Qc_tiny H (ch_levels H)).
+
+(* ---- the solve wrapper (C01) ---- *)
+From Raptor Require Import Amg.Solve.
+Definition ztol2_q : Qc := zero_tol * zero_tol.
+Definition q_solve := solve Qc 0 Qcplus Qcmult Qcminus Qcinv Qc_leb Qc_is0 Qc_tiny.
+Definition q_measure := measure Qc 0 Qcplus Qcmult Qcminus Qcinv Qc_leb Qc_is0 Qc_tiny.
+Definition q_xresid := xresid Qc Qcmult Qcminus.
+Definition q_xnorm2 := xnorm2 Qc 0 Qcplus Qcmult Qc_tiny.
+Definition q_sumsq := sumsq Qc 0 Qcplus Qcmult.
+(* the solve of the current code: plain norm, test !(r_norm <= tol), zero_tol = 1e-16 *)
+Definition q_solve_now (tol : Qc) (cyc : list (xval Qc) -> list (xval Qc) -> list (xval Qc))
+  (A : list (list (nat * Qc))) (b x : list (xval Qc)) (maxit : nat) : result Qc :=
+  q_solve NPlain false ztol2_q tol cyc A b x maxit.
+Definition q_lift_cycle := @lift_cycle Qc.
